@@ -2,7 +2,7 @@
    for one reference type is exactly the sum / the number of the iterations that voted for one of its leaves,
    for every number of iterations, leaves and types and every interleaving of winners. *)
 From Coq Require Import List ZArith Bool Lia.
-From CTM Require Import Base.Sx Model.AvgCorr.
+From CTM Require Import Base.Sx Model.Vote Model.AvgCorr.
 Import ListNotations.
 Open Scope Z_scope.
 
@@ -155,3 +155,31 @@ Lemma tally_order_irrelevant owners its1 its2 t :
   sum_where owners (fst (tally_corr (length owners) (its1 ++ its2))) t =
   sum_where owners (fst (tally_corr (length owners) (its2 ++ its1))) t.
 Proof. rewrite !agg_corr_exact, !agg_votes_exact, !own_corr_app, !own_votes_app. lia. Qed.
+
+(* refinement link: the vote array that the loop of tally_votes and the column sums of aggregate_votes build is
+   the abstract vote function [votes_for] about which the plurality / runner-up theorems of C02 and C03 speak *)
+Lemma voted_for_nth owners t it :
+  (fst it < length owners)%nat -> voted_for owners t it = (nth (fst it) owners (-1) =? t).
+Proof.
+  intros Hlt. unfold voted_for.
+  destruct (nth_error owners (fst it)) as [o|] eqn:E.
+  - now rewrite (nth_error_nth owners (fst it) (-1) E).
+  - apply nth_error_None in E. lia.
+Qed.
+
+Lemma own_votes_is_votes_for owners t : forall its,
+  iters_in_range (length owners) its = true ->
+  own_votes owners its t = Z.of_nat (votes_for owners (map fst its) t).
+Proof.
+  unfold own_votes, votes_for, count, iters_in_range.
+  induction its as [|it its IH]; intros Hr; [reflexivity|].
+  cbn [forallb] in Hr. apply andb_prop in Hr. destruct Hr as [Hit Hr].
+  apply Nat.ltb_lt in Hit. specialize (IH Hr). apply Nat2Z.inj in IH.
+  f_equal. cbn [map filter]. rewrite (voted_for_nth owners t it Hit).
+  destruct (nth (fst it) owners (-1) =? t); cbn [length]; now rewrite IH.
+Qed.
+
+Lemma tally_refines_votes_for owners its t :
+  iters_in_range (length owners) its = true ->
+  sum_where owners (fst (tally_corr (length owners) its)) t = Z.of_nat (votes_for owners (map fst its) t).
+Proof. intros Hr. rewrite agg_votes_exact. now apply own_votes_is_votes_for. Qed.
